@@ -4,6 +4,7 @@ import Toodee.Proofs.IterLemmas
 import Toodee.Proofs.MemLemmas
 import Toodee.Proofs.CellsLemmas
 import Toodee.Proofs.CopyLemmas
+import Toodee.Proofs.ConvLemmas
 /-
   C20 — Constructors and conversions preserve contents and reject bad shapes.
 
@@ -133,18 +134,50 @@ theorem C20_eq_derived (eqα : α → α → Bool) (a b : TD α) (ha : a.Inv) (h
     TD.eqDerived eqα a b = true ↔
       (a.numCols = b.numCols ∧ a.numRows = b.numRows ∧
         ∀ c r, c < a.numCols → r < a.numRows → ∃ x y, a.data[a.pos c r]? = some x ∧ b.data[b.pos c r]? = some y ∧ eqα x y = true) := by
-  sorry
+  unfold TD.eqDerived
+  rw [Bool.and_eq_true, Bool.and_eq_true, sliceEq_iff, beq_iff_eq, beq_iff_eq]
+  constructor
+  · rintro ⟨⟨⟨hl, hi⟩, hR⟩, hC⟩
+    refine ⟨hC, hR, fun c r hc hr => ?_⟩
+    have hp : a.pos c r < a.data.length := by rw [ha.len]; exact pos_lt_mul hc hr
+    have hq : b.pos c r < b.data.length := by
+      rw [hb.len, TD.pos, ← hC, ← hR]; exact pos_lt_mul hc hr
+    refine ⟨a.data[a.pos c r], b.data[b.pos c r], List.getElem?_eq_getElem hp, List.getElem?_eq_getElem hq, ?_⟩
+    have e : b.pos c r = a.pos c r := by simp only [TD.pos, hC]
+    exact hi (a.pos c r) _ _ (List.getElem?_eq_getElem hp) (by rw [← e]; exact List.getElem?_eq_getElem hq)
+  · rintro ⟨hC, hR, hcell⟩
+    have hl : a.data.length = b.data.length := by rw [ha.len, hb.len, hC, hR]
+    refine ⟨⟨⟨hl, ?_⟩, hR⟩, hC⟩
+    intro i x y hx hy
+    have hi : i < a.numCols * a.numRows := by
+      rw [← ha.len]
+      exact (List.getElem?_eq_some_iff.1 hx).1
+    obtain ⟨h1, h2, h3⟩ := index_decomp hi
+    obtain ⟨x', y', hx', hy', he⟩ := hcell _ _ h1 h2
+    rw [TD.pos, h3, hx] at hx'
+    rw [TD.pos, ← hC, h3, hy] at hy'
+    cases hx'; cases hy'
+    exact he
 
 /-- with a lawful element equality (`eqα x y ↔ x = y`), `==` is equality of dimensions and cells -/
 theorem C20_eq_iff (eqα : α → α → Bool) (heq : ∀ x y, eqα x y = true ↔ x = y) (a b : TD α) :
     TD.eqDerived eqα a b = true ↔ (a.numCols = b.numCols ∧ a.numRows = b.numRows ∧ a.data = b.data) := by
-  sorry
+  unfold TD.eqDerived
+  rw [Bool.and_eq_true, Bool.and_eq_true, sliceEq_lawful eqα heq, beq_iff_eq, beq_iff_eq]
+  constructor
+  · rintro ⟨⟨hd, hR⟩, hC⟩; exact ⟨hC, hR, hd⟩
+  · rintro ⟨hC, hR, hd⟩; exact ⟨⟨hd, hR⟩, hC⟩
 
 /-- `#[derive(Hash)]` (`TD.hashFeed`): arrays that compare equal feed the hasher the same sequence, provided the element type
     keeps the `Hash`/`Eq` contract (`eqα x y → hα x = hα y`) — so equal arrays hash equally under every hasher -/
 theorem C20_hash_eq (eqα : α → α → Bool) (hα : α → List Nat) (hc : ∀ x y, eqα x y = true → hα x = hα y) (a b : TD α)
     (hab : TD.eqDerived eqα a b = true) : TD.hashFeed hα a = TD.hashFeed hα b := by
-  sorry
+  unfold TD.eqDerived at hab
+  rw [Bool.and_eq_true, Bool.and_eq_true, beq_iff_eq, beq_iff_eq] at hab
+  obtain ⟨⟨hd, hR⟩, hC⟩ := hab
+  obtain ⟨hl, hf⟩ := sliceEq_flatMap eqα hα hc _ _ hd
+  unfold TD.hashFeed
+  rw [hl, hf, hR, hC]
 
 /-- `clone()` (`#[derive(Clone)]`, `TD.clone`): same dimensions, the shape invariant, every cell the clone of the corresponding
     cell; it compares equal to the original whenever clones compare equal to their originals.  (Independence — writing to one
@@ -154,7 +187,19 @@ theorem C20_clone (cl : α → α) (eqα : α → α → Bool) (t : TD α) (h : 
     (t.clone cl).Inv ∧ (t.clone cl).numCols = t.numCols ∧ (t.clone cl).numRows = t.numRows ∧
     (∀ c r, (t.clone cl).data[t.pos c r]? = (t.data[t.pos c r]?).map cl) ∧
     ((∀ x, eqα (cl x) x = true) → TD.eqDerived eqα (t.clone cl) t = true) := by
-  sorry
+  refine ⟨⟨?_, h.zero, ?_⟩, rfl, rfl, ?_, ?_⟩
+  · show (t.data.map cl).length = _
+    rw [List.length_map]; exact h.len
+  · show (t.data.map cl).length < _
+    rw [List.length_map]; exact h.word
+  · intro c r
+    show (t.data.map cl)[t.pos c r]? = _
+    rw [List.getElem?_map]
+  · intro hcl
+    unfold TD.eqDerived
+    show (TD.sliceEq eqα (t.data.map cl) t.data && (t.numRows == t.numRows) && (t.numCols == t.numCols)) = true
+    rw [sliceEq_map_clone eqα cl hcl]
+    simp
 
 /-- converting into a `Vec`, a boxed slice or a by-value iterator yields the cells in row-major order: item number `r*C + c` is
     cell `(c,r)`, there are `C*R` items, and the by-value iterator behaves as the ideal sequence over them -/
@@ -162,7 +207,7 @@ theorem C20_into (t : TD α) (h : t.Inv) :
     t.intoVec.length = t.numCols * t.numRows ∧ t.intoBox = t.intoVec ∧ t.intoIter = t.intoVec ∧
     (∀ c r, c < t.numCols → r < t.numRows → t.intoVec[r * t.numCols + c]? = t.data[t.pos c r]?) ∧
     t.intoVec = t.grid.flatten := by
-  sorry
+  refine ⟨h.len, rfl, rfl, fun c r _ _ => rfl, h.data_eq_flatten_grid⟩
 
 /-- non-vacuity: a concrete accepted and a concrete rejected request of each kind -/
 example : shapeOk 3 2 ∧ ¬ shapeOk 5 0 ∧ ¬ shapeOk 4294967296 4294967296 := by decide
@@ -252,5 +297,15 @@ theorem C20_from_view (m : Mode) (cap : Nat) (v : VW) (buf : List α) (h : v.Inv
     rw [getElem?_flatten_uniform v.numCols _ hlenrow r c hc]
     rw [List.getElem?_map, List.getElem?_range hr, Option.map_some, Option.bind_some, ← hrow r,
       List.getElem?_take_of_lt hc, List.getElem?_drop, VW.pos_zero_add]
+
+/-- non-vacuity: derived equality, hashing, `clone` and the conversions on a concrete 3x2 array (the same cells with the
+    dimensions exchanged compare unequal) -/
+example : TD.eqDerived (· == ·) (⟨[1, 2, 3, 4, 5, 6], 2, 3⟩ : TD Nat) ⟨[1, 2, 3, 4, 5, 6], 2, 3⟩ = true ∧
+    TD.eqDerived (· == ·) (⟨[1, 2, 3, 4, 5, 6], 2, 3⟩ : TD Nat) ⟨[1, 2, 3, 4, 5, 6], 3, 2⟩ = false := by decide
+example : TD.hashFeed (fun x => [x]) (⟨[1, 2, 3, 4, 5, 6], 2, 3⟩ : TD Nat) = [6, 1, 2, 3, 4, 5, 6, 2, 3] := by rfl
+example : TD.eqDerived (· == ·) (TD.clone id (⟨[1, 2, 3, 4, 5, 6], 2, 3⟩ : TD Nat)) ⟨[1, 2, 3, 4, 5, 6], 2, 3⟩ = true :=
+  (C20_clone id (· == ·) (⟨[1, 2, 3, 4, 5, 6], 2, 3⟩ : TD Nat) ⟨rfl, by decide, by decide⟩).2.2.2.2 (by simp)
+example : (⟨[1, 2, 3, 4, 5, 6], 2, 3⟩ : TD Nat).intoVec = [[1, 2, 3], [4, 5, 6]].flatten ∧
+    (⟨[1, 2, 3, 4, 5, 6], 2, 3⟩ : TD Nat).grid = [[1, 2, 3], [4, 5, 6]] := by decide
 
 end Toodee
